@@ -211,6 +211,8 @@ def main():
     texts += F.f_mem((2,), deltas=[0, 32])[::4]
     texts += F.f_rule_existing()[:: (6 if tier == "quick" else 1)]
     texts += F.f_mid_terminal()
+    texts += F.f_rule_singles(ops, contexts=("both", "bothstore"))[:: (3 if tier == "quick" else 1)]
+    texts += F.f_rule_pairs(both, consts=[0, 1], contexts=("both", "bothstore"))[:: (6 if tier == "quick" else 1)]
     texts += F.f_long_partition() if tier == "thorough" else F.f_long_partition(lengths=(23, 31, 47), max_stores=2)
     texts += F.f_mem_consuming()
     growth = F.f_growth_chains(ns=(10, 14, 18, 22) if tier == "thorough" else (10, 16, 22), ops=("ADD", "MUL", "AND", "SUB") if tier == "thorough" else ("ADD", "AND"))
